@@ -104,12 +104,69 @@ func main() {
 		defQ = "unrecognised_shape_newHandler"
 	}
 
+	// node.go: the exit path of a node must visit EVERY child edge / parent edge: a range loop over n.outs (n.ins)
+	// whose body is exactly the call, nothing that can leave the loop early.
+	nodeGo := parse(filepath.Join(repo, "node.go"))
+	visitsAll := func(fn, over, call string) string {
+		for _, d := range nodeGo.Decls {
+			fd, ok := d.(*ast.FuncDecl)
+			if !ok || fd.Name.Name != fn || fd.Body == nil {
+				continue
+			}
+			if fd.Type.Results != nil && len(fd.Type.Results.List) > 0 {
+				return "unrecognised_shape_" + fn + "_returns_a_value"
+			}
+			if len(fd.Body.List) != 1 {
+				return "unrecognised_shape_" + fn
+			}
+			rs, ok := fd.Body.List[0].(*ast.RangeStmt)
+			if !ok || src(rs.X) != over || len(rs.Body.List) != 1 {
+				return "unrecognised_shape_" + fn
+			}
+			es, ok := rs.Body.List[0].(*ast.ExprStmt)
+			if !ok || src(es.X) != call {
+				return "unrecognised_shape_" + fn
+			}
+			return "true"
+		}
+		return "unrecognised_shape_" + fn + "_missing"
+	}
+	closeAll := visitsAll("closeChildEdges", "n.outs", "child.Close()")
+	abortAll := visitsAll("abortParentEdges", "n.ins", "in.Abort()")
+	// node.start must call closeChildEdges unconditionally: a top-level statement of its deferred exit handler
+	uncond := false
+	for _, d := range nodeGo.Decls {
+		fd, ok := d.(*ast.FuncDecl)
+		if !ok || fd.Name.Name != "start" || fd.Body == nil {
+			continue
+		}
+		ast.Inspect(fd.Body, func(n ast.Node) bool {
+			ds, ok := n.(*ast.DeferStmt)
+			if !ok {
+				return true
+			}
+			if fl, ok := ds.Call.Fun.(*ast.FuncLit); ok {
+				for _, st := range fl.Body.List {
+					if es, ok := st.(*ast.ExprStmt); ok && src(es.X) == "n.closeChildEdges()" {
+						uncond = true
+					}
+				}
+			}
+			return true
+		})
+	}
+	if !uncond {
+		closeAll = "unrecognised_shape_start_closeChildEdges"
+	}
+
 	var b strings.Builder
-	b.WriteString("/- GENERATED by /verif/extract/c07consts from edge.go and alert/topics.go — do not edit. -/\n")
+	b.WriteString("/- GENERATED by /verif/extract/c07consts from edge.go, alert/topics.go and node.go — do not edit. -/\n")
 	b.WriteString("namespace Kap.C07.Gen\n\n")
 	fmt.Fprintf(&b, "/-- `defaultEdgeBufferSize` (edge.go), the size newEdge gives every channel edge. -/\ndef edgeCap : Nat := %s\n\n", edgeCap)
 	fmt.Fprintf(&b, "/-- `alert.DefaultEventBufferSize`: the queue of a bufHandler created with a size below the minimum. -/\ndef handlerQueue : Nat := %s\n\n", defQ)
 	fmt.Fprintf(&b, "/-- `alert.MinimumEventBufferSize`. -/\ndef handlerQueueMin : Nat := %s\n\n", minQ)
+	fmt.Fprintf(&b, "/-- node.closeChildEdges is `for _, child := range n.outs { child.Close() }`: every child edge is closed, whatever an earlier Close returned. -/\ndef closeChildEdgesVisitsAll : Bool := %s\n\n", closeAll)
+	fmt.Fprintf(&b, "/-- node.abortParentEdges is `for _, in := range n.ins { in.Abort() }`. -/\ndef abortParentEdgesVisitsAll : Bool := %s\n\n", abortAll)
 	b.WriteString("end Kap.C07.Gen\n")
 	out := filepath.Join(lean, "Kap", "Gen", "C07.lean")
 	if err := os.MkdirAll(filepath.Dir(out), 0o755); err != nil {
